@@ -512,7 +512,15 @@ def handle(job: dict) -> dict:
                 args += ["--custom-template-path", job["custom_template_path"]]
             cfgp = work / f"cfg-{name}.json"
             FS["on"] = False
-            cfgp.write_text(json.dumps(cfgd))
+            if job.get("cfg_fmt") == "yaml":
+                cfgp = work / f"cfg-{name}.yaml"
+                from ruamel.yaml import YAML as _Y
+                with open(cfgp, "wb") as fh_:
+                    _Y(typ="safe").dump(cfgd, fh_)
+            elif job.get("cfg_raw"):
+                cfgp.write_bytes(json.dumps(cfgd, ensure_ascii=False).encode("utf-8"))  # non-ASCII text typed literally, UTF-8 as the README's examples are
+            else:
+                cfgp.write_text(json.dumps(cfgd))
             FS["on"] = True
             args += ["--config", str(cfgp)]
             if job.get("via") == "subprocess":
